@@ -89,5 +89,36 @@ Theorem C04_order_indices : forall cy nrm mt m l idx, check_indices (length l) i
 Proof. exact order_multi_indices. Qed.
 Print Assumptions C04_order_indices.
 
+From PS Require Lem_MultiAPI2.
+Import Lem_MultiAPI2.
+(* the per-spike directionality values of N trains: mean over the other N-1 trains of the pairwise leader/follower value *)
+Theorem C04_values_are_mean_over_other_trains : forall (eps : R) (cy : bool) (mt m : R) (l : list train) (ts te : R), (2 <= length l)%nat -> Forall (wtrain ts te) l -> exists V : list (list R), directionality_values ROps eps cy false mt m l None = Ok V /\ length V = length l /\ (forall i : nat, (i < length l)%nat -> length (nth i V []) = length (tr_spikes (nth_train ROps l i)) /\ (forall k : nat, (k < length (tr_spikes (nth_train ROps l i)))%nat -> nth k (nth i V []) 0 = sumF ROps (map (fun j : nat => nth k (fst (dir_spec ROps (tr_spikes (nth_train ROps l i)) (tr_spikes (nth_train ROps l j)) ts te mt m)) 0) (filter (fun j : nat => negb (j =? i)) (seq 0 (length l)))) / INR (length l - 1))).
+Proof. exact directionality_values_mean. Qed.
+Print Assumptions C04_values_are_mean_over_other_trains.
+
 Example C04_nonvacuous : valid 0 1 [1/8; 1/2] /\ valid 0 1 [1/4; 7/8] /\ check_indices 4 [3; 0; 2]%nat = true.
 Proof. repeat split; try lra; valid_tac. Qed.
+
+(* ---- executed instance (Q, extracted to OCaml and run against /repo) = the real-number functions
+   the theorems above are about: kernel-checked parametricity bridge (Bridge.v).  qL = map Q2R etc. ---- *)
+From Coq Require Import QArith Qreals.
+From PS Require Import Bridge.
+Local Close Scope Q_scope.
+Theorem C04_exec_order_kernel_transfer : forall (s1 s2 : list Q) (ts te mt mrts : Q), map q3 (order_kernel QOps s1 s2 ts te mt mrts) = order_kernel ROps (qL s1) (qL s2) (Q2R ts) (Q2R te) (Q2R mt) (Q2R mrts).
+Proof. exact order_kernel_transfer. Qed.
+Print Assumptions C04_exec_order_kernel_transfer.
+Theorem C04_exec_dir_kernel_transfer : forall (s1 s2 : list Q) (ts te mt mrts : Q), qLL (dir_kernel QOps s1 s2 ts te mt mrts) = dir_kernel ROps (qL s1) (qL s2) (Q2R ts) (Q2R te) (Q2R mt) (Q2R mrts).
+Proof. exact dir_kernel_transfer. Qed.
+Print Assumptions C04_exec_dir_kernel_transfer.
+Theorem C04_exec_order_spec_transfer : forall (s1 s2 : list Q) (ts te mt mrts : Q), map q3 (order_spec QOps s1 s2 ts te mt mrts) = order_spec ROps (qL s1) (qL s2) (Q2R ts) (Q2R te) (Q2R mt) (Q2R mrts).
+Proof. exact order_spec_transfer. Qed.
+Print Assumptions C04_exec_order_spec_transfer.
+Theorem C04_exec_dir_spec_transfer : forall (s1 s2 : list Q) (ts te mt mrts : Q), qLL (dir_spec QOps s1 s2 ts te mt mrts) = dir_spec ROps (qL s1) (qL s2) (Q2R ts) (Q2R te) (Q2R mt) (Q2R mrts).
+Proof. exact dir_spec_transfer. Qed.
+Print Assumptions C04_exec_dir_spec_transfer.
+Theorem C04_exec_spike_train_order_multi_transfer : forall (eps : Q) (cy rc normalize : bool) (mt m : Q) (l : list train) (idx : option (list nat)), rmap Q2R (spike_train_order_multi QOps eps cy rc normalize mt m l idx) = spike_train_order_multi ROps (Q2R eps) cy rc normalize (Q2R mt) (Q2R m) (map qTrain l) idx.
+Proof. exact spike_train_order_multi_transfer. Qed.
+Print Assumptions C04_exec_spike_train_order_multi_transfer.
+Theorem C04_exec_spike_directionality_matrix_transfer : forall (eps : Q) (cy rc normalize : bool) (mt m : Q) (l : list train) (idx : option (list nat)), rmap (map qL) (spike_directionality_matrix QOps eps cy rc normalize mt m l idx) = spike_directionality_matrix ROps (Q2R eps) cy rc normalize (Q2R mt) (Q2R m) (map qTrain l) idx.
+Proof. exact spike_directionality_matrix_transfer. Qed.
+Print Assumptions C04_exec_spike_directionality_matrix_transfer.
